@@ -227,7 +227,6 @@ public:
    template < class S >
    void add(const SVectorBase<S>& vec)
    {
-      SVectorBase<R>::clear();
       makeMem(vec.size());
       SVectorBase<S>::add(vec);
    }
